@@ -433,6 +433,19 @@ def run(ctx):
                             "last RS shard zero-padded to E and the parity shards appended after the source shards", "ARG + DOM + value shape")
     shard_rule(ctx, r7)
 
+    # ---- R9 which symbols exist ---------------------------------------------------------------------
+    r9 = ctx.rule("C08.R9", "the set of source symbols of a transfer is derived from the object's own length: " + c07_text() + " (shared with C07.R1); and "
+                            "the B flag rides on the last transfer only because TransferInfo.transfer_count counts completed transfers (shared with C12.R1)",
+                  "ARG + WWF")
+    from . import c07, c12
+    c07.partition_call_agreement(ctx, r9)
+    c12.transfer_counter_rule(ctx, r9)
+
+
+def c07_text():
+    from . import c07
+    return c07.R1_TEXT
+
 
 def shard_rule(ctx, rule):
     from ..cfg import strip_ref
